@@ -46,6 +46,12 @@ CHECKS = {
     "C17": dict(ready=True, category="exploration", technique="runtime monitoring: contract monitors on every returned result (permutation / start node / cost not worse / logical step bound for LKH; disjoint, core-grown, density-reachable, no core unclustered for DBSCAN via own BFS; partition + nearest-medoid for k-medoids)",
         text="Directed seed-independent sets (all start permutations for n <= 5, 240 tiny DBSCAN inputs, k-medoids grids) plus seeded random geometry classes (float Euclid, integer grids with ties, duplicates, collinear, clustered, non-metric) with complete / k-nearest neighbour lists and start paths not starting at node 0; termination is bounded progress: cost-oracle calls are counted and exceeding max(2000 n^3, 200000) is a violation with the matrix as witness.",
         note="Symmetric finite costs; DBSCAN maximality is not stated by the property (observed only); k > n unspecified.", design_ref="DESIGN.md §3 C17"),
+    "C08": dict(ready=True, category="exploration", technique="runtime monitoring: reference-model monitor (list of everything ever offered, unique ids) compared after every operation of random histories on Greedy / Elitism / Rosomaxa; end-to-end seeded re-solves compared under the goal",
+        text="Histories of 1-201 operations over add, add_all(0-20), on_generation (7 termination-estimate schedules, 4 speed modes driving all three Rosomaxa phases and transitions), select, ranked, all, size with hostile fitness streams (ties, +-0, denormals, 1e300, monotone) and batch shapes; after every op: first ranked no worse than anything ever offered, ranked sorted, size bounds, select yields only offered individuals and something when non-empty. E2E: a solve seeded with a feasible solution (directly and through write/read_init_solution) never returns a worse one.",
+        note="No NaN/inf fitness; documented config ranges; Rosomaxa's all() vs size() unspecified.", design_ref="DESIGN.md §3 C08"),
+    "C13": dict(ready=True, category="exploration", technique="runtime monitoring: reference-model monitor - generated instance models printed in the three grammars, parsed by the real readers and compared field by field; own route simulation of constructive solves and constraint probes against the file's numbers; writer/reader round trips",
+        text="Per case one geometry yields Solomon, Li&Lim and TSPLIB models (duplicates, depot not node 1, float-formatted coordinates, varying whitespace/CRLF) parsed rounded and exact through three API paths; ids, locations, demand kind/sign/value, windows, service times, fleet, capacity, shift window and all pairwise distances are compared with an integer-arithmetic oracle; planted capacity- and window-tight routes are probed (feasible stop accepted, stop breaking exactly one limit rejected) and 12 constructive methods are replayed against the file; complete solutions survive write -> read_init_solution.",
+        note="Inputs inside the bundled grammar only; TSPLIB job id = node - 1; travel time = distance.", design_ref="DESIGN.md §3 C13"),
     "C03": dict(ready=True, category="exploration", technique="runtime monitoring: replay oracle recomputing schedule/load/distance/statistics/cost from routing data and visiting order, compared with every reported number",
         text="O1 replays each tour of each recorded solution from (visiting order, first departure): stop arrival/departure within the one-unit output rounding, per-stop load and cumulative distance exactly, tour and overall statistics, cost = fixed + distance*cd + duration*ct, and that the reported place tag belongs to a place explaining the reported interval.",
         note="Integral matrices/durations; fractional profile scale widens the per-leg split tolerance; tours with transit stops/commute only per-stop consistency (not generated).", design_ref="DESIGN.md §3 C03"),
